@@ -43,20 +43,23 @@ CALCS = {
 def child(mode, name):
     import numpy as np
     import periodictable as pt
-    from periodictable import nsf, xsf, activation, fasta
-    from periodictable.formulas import formula
+    from periodictable import nsf, xsf          # (importing these two modules loads no table;
+    from periodictable.formulas import formula  #  periodictable.fasta does, so it is imported only where it is the calculator)
 
     def _activation(f):
+        from periodictable import activation
         s = activation.Sample(f, 1.0)
         s.calculate_activation(activation.ActivationEnvironment(1e8, 0, 0), exposure=10, rest_times=[0, 1])
         return sorted((k.isotope, k.daughter, k.reaction, [float(x) for x in v]) for k, v in s.activity.items())
 
     def _decay(f):
+        from periodictable import activation
         s = activation.Sample(f, 1.0)
         s.calculate_activation(activation.ActivationEnvironment(1e8, 0, 0), exposure=10, rest_times=[0, 1])
         return s.decay_time(0.1 * sum(float(v[0]) for v in s.activity.values()))
 
     def _fasta():
+        from periodictable import fasta
         q = fasta.Sequence("x", "GASP")
         return (q.sld, q.Dsld, q.mass, q.D2Omatch)
     if mode == "after":
